@@ -16,6 +16,17 @@ CLAIMED = {
         "shared mailbox state is only touched under Mailbox._lock. Bounded: <=3 subscribers, <=5 messages, capacity<=4.",
    technique="TLA+ model checking (TLC) + lock-step replay of the TLC state graph into the real Mailbox + TLC trace validation",
    design="4/C05"),
+ "C07": dict(
+   text="spec/Chunks.tla gives set-theoretic definitions of split / early split / concatenate / merge / sub-run bookkeeping and "
+        "transcriptions of split_array's scan and the annotation code; TLC checks the laws of chunking and "
+        "'transcription conforms to definition' on every chunk of the scope and prints the expected results, which are compared "
+        "with the real strax functions (enumerated-case replay). Real Rechunker runs over every chunking of the scope are "
+        "recorded and validated by TLC against the nondeterministic P-level of rechunking (RechunkTrace.tla); an exception on "
+        "valid input is a violation.",
+   note="Trusted: TLC, the JSON case transport, numpy structured arrays with (time, endtime). Bounded scope: <=4 rows on a grid "
+        "of <=9 time units, <=3 chunks per stream, target sizes 1..4 rows.",
+   technique="TLA+ definitional oracle enumerated by TLC + replay of every case into the real code; TLC trace validation for the rechunker",
+   design="4/C07"),
 }
 NOT_BUILT = "decision procedure (TLA+ module + binding) not built yet in this session; see DESIGN.md section 4 for the plan"
 
